@@ -23,16 +23,16 @@ from translate import t_c08
 
 FIELDS = ['x', 'y', 'z']
 DKEYS = ['a', 'b', 'c', 'd']
-LIST_OPS = ['l_setitem', 'l_setslice', 'l_delitem', 'l_iadd', 'l_imul', 'l_append', 'l_extend', 'l_insert',
+LIST_OPS = ['l_setitem', 'l_setslice', 'l_delitem', 'l_delslice', 'l_iadd', 'l_imul', 'l_append', 'l_extend', 'l_insert',
             'l_pop', 'l_remove', 'l_clear', 'l_sort', 'l_reverse', 'rebind']
 DICT_OPS = ['d_setitem', 'd_delitem', 'd_ior', 'd_update', 'd_setdefault', 'd_pop', 'd_popitem', 'd_clear',
             'd_setattr', 'd_delattr', 'rebind']
 OBJ_OPS = ['o_setattr', 'o_delattr', 'rebind']
-ACCESSOR_OPS = {'l_setitem', 'l_setslice', 'l_delitem', 'd_setitem', 'd_delitem', 'd_setattr', 'd_delattr',
+ACCESSOR_OPS = {'l_setitem', 'l_setslice', 'l_delitem', 'l_delslice', 'd_setitem', 'd_delitem', 'd_setattr', 'd_delattr',
                 'o_setattr'}
 # python method name -> model op names, per class (used to match the introspected entry points)
 METHOD_OPS = {
-    'List': {'__setitem__': ['l_setitem', 'l_setslice'], '__delitem__': ['l_delitem'], '__iadd__': ['l_iadd'],
+    'List': {'__setitem__': ['l_setitem', 'l_setslice'], '__delitem__': ['l_delitem', 'l_delslice'], '__iadd__': ['l_iadd'],
              '__imul__': ['l_imul'], 'append': ['l_append'], 'extend': ['l_extend'], 'insert': ['l_insert'],
              'pop': ['l_pop'], 'remove': ['l_remove'], 'clear': ['l_clear'], 'sort': ['l_sort'],
              'reverse': ['l_reverse'], 'rebind': ['rebind'], 'sym_rebind': ['rebind']},
@@ -113,18 +113,23 @@ def all_nodes(t, path=()):
 
 
 def deep_flag(t, flag, value):
-  return all(n[flag] == value for _, n in all_nodes(t))
+  return all(n[flag] == value and (flag != 's' or n['k'] != 'obj' or n.get('ci', n['s']) == value)
+             for _, n in all_nodes(t))
 
 
 def set_deep(t, flag, value):
+  """`seal(value)` / flag setting on every node (for an object, `seal` also sets the flag `ci` of its
+  attribute container)."""
   for _, n in all_nodes(t):
     n[flag] = value
+    if flag == 's' and n['k'] == 'obj':
+      n['ci'] = value
 
 
 def val_node(kind, items, c=0):
   """A fresh value as the implementation will create it (default flags)."""
   if kind == 'obj':
-    return {'k': 'obj', 's': False, 'w': CLASS_ACCW[c], 'c': c, 'items': items}
+    return {'k': 'obj', 's': False, 'w': CLASS_ACCW[c], 'ci': False, 'c': c, 'items': items}
   return {'k': kind, 's': False, 'w': True, 'items': items}
 
 
@@ -156,7 +161,7 @@ def apply_flags(v, t):
   v.set_accessor_writable(t['w'])
   v.sym_seal(t['s'])
   if isinstance(v, pg.Object):
-    v.sym_init_args.sym_seal(t['s'])      # the attribute container carries the object's flag
+    v.sym_init_args.sym_seal(t.get('ci', t['s']))      # the attribute container has a flag of its own
 
 
 def build_full(t):
@@ -175,22 +180,38 @@ def dump(v):
             'items': [[k, dump(c)] for k, c in v.sym_items()]}
   if isinstance(v, pg.Object):
     c = [i for i, cls in enumerate(classes()) if type(v) is cls]
-    return {'k': 'obj', 's': bool(v.is_sealed), 'w': bool(v.accessor_writable), 'c': c[0] if c else 99,
+    return {'k': 'obj', 's': bool(v.is_sealed), 'w': bool(v.accessor_writable),
+            'ci': bool(v.sym_init_args.is_sealed), 'c': c[0] if c else 99,
             'items': [[k, dump(c)] for k, c in v.sym_items()]}
   if v is None or isinstance(v, (int, str)) and not isinstance(v, bool):
     return v
   return '<%s>' % type(v).__name__
 
 
-def plain(t):
-  """JSON value tree -> plain python value handed to the API (objects are fresh instances)."""
+def has_flags(t):
+  """Does a value tree carry a non-default per-node flag (sealed, or accessor_writable flipped)?"""
+  if not is_node(t) or t['k'] == 'idict':
+    return False
+  return any(n.get('s') or n.get('ci') or n.get('w', True) != (CLASS_ACCW[n.get('c', 0)] if n['k'] == 'obj' else True)
+             for _, n in all_nodes(t))
+
+
+def plain(t, sink=None):
+  """JSON value tree -> value handed to the API: plain python containers (objects are fresh
+  instances); a value that carries its own flags (e.g. a value sealed before it is inserted) is built
+  as a parent-less symbolic value with exactly these flags and recorded in `sink` as (json, object)."""
   if not is_node(t):
     return t
+  if has_flags(t):
+    v = build_full(t)
+    if sink is not None:
+      sink.append((t, v))
+    return v
   if t['k'] == 'list':
-    return [plain(c) for c in t['items']]
+    return [plain(c, sink) for c in t['items']]
   if t['k'] in ('dict', 'idict'):        # idict: int keys (probe argument of List.rebind)
-    return {k: plain(c) for k, c in t['items']}
-  return classes()[t.get('c', 0)](**{k: plain(c) for k, c in t['items']})
+    return {k: plain(c, sink) for k, c in t['items']}
+  return classes()[t.get('c', 0)](**{k: plain(c, sink) for k, c in t['items']})
 
 
 def navigate(root, path):
@@ -200,17 +221,19 @@ def navigate(root, path):
   return v
 
 
-def do_call(node, call):
+def do_call(node, call, sink=None):
   import pyglove as pg
   n = call['name']
-  v = plain(call['v']) if 'v' in call else None
-  vs = [plain(x) for x in call['vs']] if 'vs' in call else None
+  v = plain(call['v'], sink) if 'v' in call else None
+  vs = [plain(x, sink) for x in call['vs']] if 'vs' in call else None
   i = call.get('i')
   key = call.get('key')
   if n == 'l_setitem':
     node[i] = v
   elif n == 'l_setslice':
-    node[call['a']:call['b']] = vs
+    node[call.get('a'):call.get('b'):call.get('step')] = vs
+  elif n == 'l_delslice':
+    del node[call.get('a'):call.get('b'):call.get('step')]
   elif n == 'l_delitem':
     del node[i]
   elif n == 'l_iadd':
@@ -238,9 +261,9 @@ def do_call(node, call):
   elif n == 'd_delitem':
     del node[key]
   elif n == 'd_ior':
-    operator.ior(node, {k: plain(x) for k, x in call['kvs']})
+    operator.ior(node, {k: plain(x, sink) for k, x in call['kvs']})
   elif n == 'd_update':
-    node.update({k: plain(x) for k, x in call['kvs']})
+    node.update({k: plain(x, sink) for k, x in call['kvs']})
   elif n == 'd_setdefault':
     node.setdefault(key, v)
   elif n == 'd_pop':
@@ -257,7 +280,7 @@ def do_call(node, call):
   elif n in ('d_delattr', 'o_delattr'):
     delattr(node, key)
   elif n == 'rebind':
-    node.rebind({pg.KeyPath(list(p)): plain(x) for p, x in call['pairs']})
+    node.rebind({pg.KeyPath(list(p)): plain(x, sink) for p, x in call['pairs']})
   else:
     raise AssertionError('unknown call ' + n)
 
@@ -272,8 +295,9 @@ def classify(e):
   return type(e).__name__
 
 
-def run_call(root, step, extra_sealed=(), extra_acc=()):
-  """Runs one call step inside its scopes; returns the outcome class."""
+def run_call(root, step, extra_sealed=(), extra_acc=(), sink=None):
+  """Runs one call step inside its scopes; returns the outcome class. `sink` collects the flagged
+  symbolic values handed to the call as (json, object)."""
   import pyglove as pg
   res = 'ok'
   with contextlib.ExitStack() as stack:
@@ -288,7 +312,7 @@ def run_call(root, step, extra_sealed=(), extra_acc=()):
         with contextlib.redirect_stdout(io.StringIO()):
           getattr(node, step['method'])(*args)
       else:
-        do_call(node, step['call'])
+        do_call(node, step['call'], sink)
     except Exception as e:    # pylint: disable=broad-except
       res = classify(e)
   return res
@@ -391,7 +415,25 @@ class Gen:
     r = self.r
     if r.chance(0.7):
       return self.atom()
+    if r.chance(0.3):
+      return self.sealed_value(r.below(2))
     return self.tree(r.below(2))
+
+  def sealed_value(self, depth, kind=None, shallow_ok=False):
+    """A value that was sealed (deeply, as `seal()` leaves it) before it is handed to the call;
+    now and then with flipped accessor flags or (`shallow_ok`: only where the value is not cloned on
+    its way into the tree, clone semantics being C07's) an unsealed descendant."""
+    r = self.r
+    v = self.tree(depth, kind)
+    set_deep(v, 's', True)
+    nodes = all_nodes(v)
+    if r.chance(0.15):
+      for _, n in nodes:
+        if r.chance(0.3):
+          n['w'] = not n['w']
+    if shallow_ok and len(nodes) > 1 and r.chance(0.1):
+      r.choice(nodes[1:])[1]['s'] = False
+    return v
 
   def scopes(self):
     r = self.r
@@ -413,6 +455,8 @@ class Gen:
     elif mode < 7:
       for _, n in nodes:
         n['s'] = r.chance(0.4)
+        if n['k'] == 'obj':
+          n['ci'] = n['s'] if r.chance(0.7) else not n['s']     # as the shallow sym_seal leaves it
     for _, n in nodes:
       if r.chance(0.25):
         n['w'] = not n['w']
@@ -443,9 +487,16 @@ class Gen:
       return r.choice(DKEYS + ['e'])
     if name in ('l_setitem', 'l_insert'):
       c.update(i=idx(), v=self.value())
-    elif name == 'l_setslice':
-      a = r.randint(0, n)
-      c.update(a=a, b=r.randint(a, n), vs=[self.value() for _ in range(r.below(3))])
+    elif name in ('l_setslice', 'l_delslice'):
+      def bound():
+        return None if r.chance(0.25) else r.randint(-n - 2, n + 2)
+      step = r.choice([None, 1, 1, 2, -1, -2, 3, 0] if r.chance(0.5) else [None, 1])
+      c.update(a=bound(), b=bound(), step=step)
+      if name == 'l_setslice':
+        k = r.below(3)
+        if step not in (None, 1, 0) and r.chance(0.8):
+          k = len(range(*slice(c['a'], c['b'], step).indices(n)))     # extended slice: the size must fit
+        c.update(vs=[self.value() for _ in range(k)])
     elif name in ('l_delitem', 'l_pop'):
       c.update(i=idx())
     elif name in ('l_iadd', 'l_extend'):
@@ -516,6 +567,8 @@ class Gen:
         steps.append({'kind': 'seal', 'recv': path, 'b': r.chance(0.5)})
       elif k == 1:
         steps.append({'kind': 'set_acc', 'recv': path, 'b': r.chance(0.5)})
+      elif k == 2:
+        steps.append({'kind': 'sym_seal', 'recv': path, 'b': r.chance(0.6)})
       else:
         steps.append({'kind': 'call', 'recv': path, 'sealed_scopes': self.scopes(),
                       'acc_scopes': self.scopes() if r.chance(0.5) else [],
@@ -528,6 +581,15 @@ class Gen:
     return steps
 
 
+def call_values(call):
+  """The value arguments of a call."""
+  out = [call['v']] if 'v' in call else []
+  out += list(call.get('vs', []))
+  out += [x for _, x in call.get('kvs', [])]
+  out += [x for _, x in call.get('pairs', [])]
+  return out
+
+
 def sortable(node):
   return len(node['items']) <= 1 or all(isinstance(x, int) for x in node['items'])
 
@@ -538,7 +600,9 @@ def canonical_call(name, node):
   if name in ('l_setitem',):
     return {'name': name, 'i': 0, 'v': 42}
   if name == 'l_setslice':
-    return {'name': name, 'a': 0, 'b': 1, 'vs': [41, 42]}
+    return {'name': name, 'a': 0, 'b': 1, 'step': None, 'vs': [41, 42]}
+  if name == 'l_delslice':
+    return {'name': name, 'a': None, 'b': None, 'step': 2}
   if name in ('l_delitem', 'l_pop'):
     return {'name': name, 'i': -1}
   if name in ('l_iadd', 'l_extend'):
@@ -599,10 +663,14 @@ class C08(Prop):
   translators = [t_c08.run]
   case_timeout_s = 20
   rule = ('trees of pg.Dict / pg.List / two pg.Object classes (depth <= 3, per-node sealed and '
-          'accessor_writable flags: one deep-sealed subtree 50 %, random flags 20 %, none 30 %); 1-3 steps '
-          '(call of a random mutating entry point of the receiver type with mostly valid arguments, '
-          'seal/unseal, set_accessor_writable) under 0-4 nested as_sealed / allow_writable_accessors '
-          'scopes (True/False/None); plus an exhaustive grid: every entry point x {node, child, '
+          'accessor_writable flags, for objects also the flag of the attribute container: one deep-sealed subtree '
+          '50 %, random flags 20 %, none 30 %); 1-3 steps (call of a random mutating entry point of the receiver '
+          'type with mostly valid arguments -- slices with any start/stop/step incl. del slices; 9 % of the '
+          'symbolic values handed to a call were sealed beforehand --, seal/unseal, shallow sym_seal, '
+          'set_accessor_writable) under 0-4 nested as_sealed / allow_writable_accessors '
+          'scopes (True/False/None); 400 dependent batches (a pair of a rebind inserts a sealed value, another '
+          'pair of the same rebind addresses a key at or below that path, both orders, every receiver kind); '
+          'plus an exhaustive grid: every entry point x {node, child, '
           'grandchild} x own flag x 9 scope stacks x accessor flag, and every mutating method found by '
           'introspection of the classes\' MRO. Non-trivial: the step addresses a node that is protected '
           '(sealed flag, sealed scope or accessor protection) or exercises seal/unseal; distinct by JSON.')
@@ -611,11 +679,15 @@ class C08(Prop):
       'cross-checked behaviourally by the exhaustive entry-point grid',
       'closed list of builtin list/dict mutators re-derived from the running interpreter by a behavioural probe',
       'modelled, not verified: bodies of the mutators (pre-checks, delegation order, rebind path resolution, '
-      'KeyPath ordering) tied by correspondence; value specs, slices with step != 1, insertion of existing '
-      'symbolic nodes, sym_seal (shallow), use_value_spec, pickling (__setstate__/__init__) are outside the model',
+      'KeyPath ordering, slice.indices) tied by correspondence; value specs, insertion of symbolic nodes that '
+      'already have a parent (clone semantics: C07), use_value_spec, pickling (__setstate__/__init__) are outside '
+      'the model',
+      'a batched rebind stopped by a target that became sealed during the batch keeps its earlier pairs applied '
+      '(the receiver is not protected; the property text demands the sealed value to be unchanged): modelled as '
+      'the code does it, the oracle demands WritePermissionError and the sealed value unchanged',
       'unbound builtin calls such as list.append(l, x) are not public API of the symbolic types',
   ]
-  assumptions = ['the object flag of _sym_attributes equals the flag of its pg.Object (kept by Object.seal)']
+  assumptions = ['sym_init_args is the attribute container _sym_attributes of a pg.Object (its sealed flag is observed and set through it)']
 
   # -- generation -------------------------------------------------------------------------
   def generate(self, rng, tier):
@@ -626,6 +698,7 @@ class C08(Prop):
       yield {'tree': t, 'steps': g.steps_for(t)}
     yield from self.history_cases(rng, 150 if tier == 'quick' else 3000)
     yield from self.mixed_rebind_cases(rng, 60 if tier == 'quick' else 1500)
+    yield from self.dependent_batch_cases(rng, 400 if tier == 'quick' else 8000)
     yield from self.grid_cases()
     yield from self.discovered_cases()
     yield from self.shallow_seal_cases()
@@ -703,6 +776,74 @@ class C08(Prop):
       yield {'tree': t, 'steps': [{'kind': 'call', 'recv': [], 'sealed_scopes': rng.choice([[], [None], [False, None]]),
                                    'acc_scopes': [], 'call': {'name': 'rebind', 'pairs': pairs}}]}
 
+  def dependent_batch_cases(self, rng, n):
+    """One batched rebind in which a pair inserts a value that was sealed beforehand (under a new
+    key, or in place of an existing unsealed child) and another pair of the same batch addresses a
+    key at or below that very path -- so the target only becomes sealed *during* the batch. Both
+    orders, optional unrelated third pair, receivers of every kind at every depth."""
+    g = Gen(rng)
+    made = 0
+    for _ in range(n * 4):
+      if made >= n:
+        break
+      t = g.tree(rng.randint(1, 3), rng.choice(['dict', 'obj', 'list', 'dict']))
+      if rng.chance(0.2):
+        g.flags(t)
+      nodes = all_nodes(t)
+      rpath, recv = rng.choice(nodes)
+      sub = all_nodes(recv)
+      ppath, par = rng.choice(sub)
+      keys = [k for k, _ in children(par)]
+      if par['k'] == 'list':
+        k = rng.randint(0, len(keys))
+      elif par['k'] == 'obj':
+        k = rng.choice(FIELDS)
+      else:
+        k = rng.choice(keys) if keys and rng.chance(0.5) else rng.choice(DKEYS + ['n'])
+      vkind = rng.choice(['dict', 'list', 'obj', 'dict'])
+      v = g.sealed_value(rng.randint(0, 2), vkind, shallow_ok=True)
+      if not rng.chance(0.85):
+        set_deep(v, 's', False)                  # control: the inserted value is not sealed
+      inner = all_nodes(v)
+      qpath, q = rng.choice(inner)
+      qkeys = [kk for kk, _ in children(q)]
+      if q['k'] == 'list':
+        k2 = rng.randint(0, len(qkeys))
+      elif q['k'] == 'obj':
+        k2 = rng.choice(FIELDS)
+      else:
+        k2 = rng.choice(qkeys) if qkeys and rng.chance(0.6) else rng.choice(DKEYS)
+      P = list(ppath) + [k]
+      pairs = [[P, v], [P + list(qpath) + [k2], g.atom() if rng.chance(0.8) else g.tree(0)]]
+      # the pair below is applied *before* the insertion when it comes first (Dict / Object receivers
+      # apply in the given order) or when the receiver is a List (descending path order): it then
+      # meets the old occupant of that path, which must accept the key type (or not exist at all).
+      old_p = get_at(recv, P)
+      old_q = get_at(recv, P + list(qpath))
+      compatible = not is_node(old_p) or (is_node(old_q) and old_q['k'] == q['k'])
+      if compatible and rng.chance(0.25):
+        pairs.reverse()
+      if recv['k'] == 'list' and not compatible:
+        continue
+      if rng.chance(0.35):
+        others = [(pp, x) for pp, x in sub if pp[:len(P)] != P and P[:len(pp) + 1] != list(pp) + P[len(pp):len(pp) + 1]]
+        if others:
+          op_, ox = rng.choice(others)
+          if ox['k'] == 'list':
+            ok_ = rng.randint(0, len(ox['items']))
+          elif ox['k'] == 'obj':
+            ok_ = rng.choice(FIELDS)
+          else:
+            ok_ = rng.choice(DKEYS)
+          extra = [list(op_) + [ok_], g.atom()]
+          if extra[0] != P:
+            pairs.insert(rng.randint(0, len(pairs)), extra)
+      made += 1
+      yield {'tree': t, 'steps': [{'kind': 'call', 'recv': rpath,
+                                   'sealed_scopes': rng.choice([[], [], [], [None], [False], [True], [False, None]]),
+                                   'acc_scopes': rng.choice([[], [], [False]]),
+                                   'call': {'name': 'rebind', 'pairs': pairs}, 'dependent': True}]}
+
   def grid_cases(self):
     stacks = [[], [True], [False], [None], [True, None], [None, True], [False, True], [True, False], [None, None, False]]
     for leafk, tmpl, path in grid_templates():
@@ -756,7 +897,7 @@ class C08(Prop):
                                           'modelled': m in METHOD_OPS[cname]}]}
 
   def shallow_seal_cases(self):
-    """Oracle-only family (no model part): a value sealed with the shallow public setter
+    """A value sealed with the shallow public setter
     `sym_seal(True)` -- for a pg.Object this leaves the flag of the attribute container unset, so only
     the object's own guards protect it -- must refuse every entry point of its type."""
     samples = {'list': val_node('list', [3, 1, 2]), 'dict': val_node('dict', [['a', 1], ['c', 2]]),
@@ -777,7 +918,7 @@ class C08(Prop):
 
   # -- execution --------------------------------------------------------------------------
   def model_request(self, case):
-    if any(s['kind'] in ('generic', 'sym_seal') for s in case['steps']):
+    if any(s['kind'] == 'generic' for s in case['steps']):
       return None
     return {'op': 'run', 'tree': case['tree'], 'steps': case['steps']}
 
@@ -792,12 +933,17 @@ class C08(Prop):
       o = {}
       if step['kind'] in ('call', 'generic'):
         jb = pg.to_json(root)
-        o['res'] = run_call(root, step)
+        sink = []
+        o['res'] = run_call(root, step, sink=sink)
         o['json_same'] = pg.to_json(root) == jb
+        # the flagged (e.g. sealed) values handed to the call: what they look like afterwards
+        o['ins'] = [{'v': vj, 'after': dump(v)} for vj, v in sink]
         # would the call change anything if nothing were sealed / if accessors were writable?
         r1 = build_full(pre)
-        o['unsealed'] = {'res': run_call(r1, step, extra_sealed=[False])}
+        sink1 = []
+        o['unsealed'] = {'res': run_call(r1, step, extra_sealed=[False], sink=sink1)}
         o['unsealed']['changes'] = dump(r1) != pre
+        o['unsealed']['ins_changed'] = [dump(v) != vj for vj, v in sink1]
         r2 = build_full(pre)
         o['acc_true'] = {'res': run_call(r2, step, extra_acc=[True])}
         o['acc_true']['tree'] = dump(r2)
@@ -854,8 +1000,23 @@ class C08(Prop):
           t = get_at(recv, p[:-1])
           if is_node(t):
             targets.append(t)
-    strong = [t for t in targets if eff_s is True or (eff_s is None and deep_flag(t, 's', True))]
-    weak = [t for t in targets if eff_s is True or (eff_s is None and t['s'])]
+    # nodes of values inserted by one pair of a batch that another pair of the same batch addresses:
+    # whether such a node is the target of a write depends on the time at which the pair is applied.
+    dyn = []
+    if name == 'rebind':
+      for p, _ in step['call']['pairs']:
+        for p2, v2 in step['call']['pairs']:
+          if p2 != p and len(p2) < len(p) and p[:len(p2)] == p2 and is_node(v2):
+            t = get_at(v2, p[len(p2):-1])
+            if is_node(t):
+              dyn.append(t)
+    # every target is the node whose *direct* contents the call writes: its own flag decides (a value
+    # whose own is_sealed is True is sealed, however it got there: seal() or the shallow sym_seal()).
+    # `weak` only relaxes R3: an unsealed object whose attribute container is sealed (possible through
+    # the shallow setters) refuses __setattr__ and rebind of its fields.
+    strong = [t for t in targets if eff_s is True or (eff_s is None and t['s'])]
+    weak = [t for t in targets if eff_s is True or (eff_s is None and (t['s'] or t.get('ci')))]
+    weak_dyn = [t for t in dyn if eff_s is True or (eff_s is None and (t['s'] or t.get('ci')))]
     acc_prot = eff_a is False or (eff_a is None and not recv['w'])
     changed = o['tree'] != pre or not o['json_same']
     # R1: sealed (by flag, deeply, or by scope) => nothing changes; WPE if it would have changed.
@@ -872,6 +1033,22 @@ class C08(Prop):
         return {'signature': 'sealed-no-error:' + name,
                 'what': '%s on a sealed value (scope=%s) would change it but ended with %s instead of '
                         'WritePermissionError' % (name, ss, o['res'])}
+    # R1b: a value that was sealed before it was handed to the call (e.g. inserted by one pair of a
+    # batched rebind and addressed by another pair of the same batch) never changes; if the call would
+    # change it (it does inside as_sealed(False)), the call ends in WritePermissionError.
+    if eff_s is None:
+      for i, ins in enumerate(o.get('ins', [])):
+        if not deep_flag(ins['v'], 's', True):
+          continue
+        if ins['after'] != ins['v']:
+          return {'signature': 'sealed-value-modified:' + name,
+                  'what': '%s (scope=%s) changed a value that was sealed before it was handed to the call: '
+                          '%s -> %s (outcome %s)' % (name, ss, ins['v'], ins['after'], o['res'])}
+        would = o['unsealed'].get('ins_changed', [])
+        if i < len(would) and would[i] and o['res'] != 'perm':
+          return {'signature': 'sealed-value-no-error:' + name,
+                  'what': '%s (scope=%s) would change the sealed value %s handed to it but ended with %s '
+                          'instead of WritePermissionError' % (name, ss, ins['v'], o['res'])}
     # R2: accessor protection.
     if acc_prot and name in ACCESSOR_OPS and not weak:
       if changed:
@@ -887,7 +1064,7 @@ class C08(Prop):
               'what': 'rebind under acc scopes %s / flag %s: %s; with allow_writable_accessors(True): %s' % (
                   as_, recv['w'], o['res'], o['acc_true']['res'])}
     # R3: nothing sealed, accessors writable => never a permission error.
-    if not weak and not acc_prot and o['res'] == 'perm':
+    if not weak and not weak_dyn and not acc_prot and o['res'] == 'perm':
       return {'signature': 'spurious-permission-error:' + name,
               'what': '%s raised WritePermissionError although no target is sealed (scope=%s) and accessor '
                       'writes are allowed (scope=%s)' % (name, ss, as_)}
@@ -913,6 +1090,8 @@ class C08(Prop):
         r = get_at(t, s['recv'])
         if is_node(r) and (r['s'] or not r['w']):
           return True
+        if s['kind'] == 'call' and any(has_flags(x) for x in call_values(s['call'])):
+          return True
     return False
 
   def describe(self, case, out):
@@ -929,6 +1108,12 @@ class C08(Prop):
         r = get_at(case['tree'], s['recv'])
         if is_node(r):
           h.append('recv:%s sealed=%s accW=%s' % (r['k'], r['s'], r['w']))
+        if s.get('dependent'):
+          h.append('dependent-batch')
+        if any(deep_flag(i['v'], 's', True) for i in o.get('ins', [])):
+          h.append('sealed-value-handed-in')
+          if any(o.get('unsealed', {}).get('ins_changed', [])):
+            h.append('call-would-change-sealed-value')
         if o['res'] == 'perm':
           h.append('refused')
         elif o.get('unsealed', {}).get('changes') is False:
